@@ -5,6 +5,7 @@
 //!   sv drive <family> --out <file.ndjson> [--tier quick|thorough] [--seed N]
 //!   sv replay <family> --in <behaviours.ndjson> --out <file.ndjson>
 mod fam_h;
+mod fam_o;
 mod gen;
 mod rec;
 mod util;
@@ -25,6 +26,7 @@ fn main() {
     let mut out = Out::create(&a.get("out", "/dev/stdout"));
     match (a.pos[0].as_str(), a.pos[1].as_str()) {
         ("drive", "c01") => fam_h::drive_c01(&a, &mut out),
+        ("drive", "ops") => fam_o::drive_ops(&a, &mut out),
         (m, f) => {
             eprintln!("unknown mode/family {} {}", m, f);
             std::process::exit(2);
